@@ -28,6 +28,7 @@ func init() {
 	gens["c04-literals"] = c04Literals
 	gens["c04-collisions"] = c04Collisions
 	gens["c04-now"] = c04Now
+	gens["c04-selfsimilar"] = c04SelfSimilar
 }
 
 // c04Collisions: pairs of DIFFERENT well-formed headers of equal length that collide under the hash
@@ -479,6 +480,25 @@ func c04Now(c *enumx.Ctx) {
 		}
 	}
 	c.Sample("type=SYSCALL msg=audit(<now+60>.000:77): a=b => @timestamp is now+60 s")
+}
+
+// c04SelfSimilar: bodies that repeat the record's OWN header (a dispatcher relaying a record it was given, text
+// quoted inside a message): at the very start, after blanks, after a colon, twice, and another record's header - RawData is
+// the trimmed text after msg=, all of it.
+func c04SelfSimilar(c *enumx.Ctx) {
+	for _, h := range []header{{"SYSCALL", 1300, "1700000000", "123", "42", ""}, {"USER_CMD", 1123, "1", "001", "4294967295", ""}, {"UNKNOWN[1999]", 1999, "17179869183", "999", "0", ""}} {
+		own := "audit(" + h.sec + "." + h.ms + ":" + h.seq + ")"
+		other := "audit(" + h.sec + "." + h.ms + ":7)"
+		for _, b := range []string{own, " " + own, ": " + own, " " + own + ": a=b", " " + own + ": " + own + ": a=b", ": " + own + " a=b", " " + other + ": a=b", " a=b " + own + ": c=d", " msg=" + own + ": a=b", " " + own[:len(own)-1], " " + own + ":", own + own} {
+			if !c.Mine() {
+				continue
+			}
+			hh := h
+			hh.body = b
+			checkSuccess(c, hh)
+		}
+	}
+	c.Sample("type=SYSCALL msg=audit(1700000000.123:42): audit(1700000000.123:42): a=b => RawData holds both copies")
 }
 
 func c04Ms(c *enumx.Ctx) {
